@@ -1,22 +1,104 @@
-(* C18 — No parse leaves a goroutine behind.  Property theorems only.
+(* C18 -- No parse leaves a goroutine behind.  Property theorems only.
 
    Model: every scanner a parse starts is recorded as (items it sends, receives the parser made on
    its channel, drained); its goroutine has exited iff it was drained or every item was received
-   ([scan_done]).  Entry points: parse.SoyFile ([parse_file] / [soy_file]; its own scanner and the
-   nested scanner of every quoted attribute expression), parse.Expr ([soy_expr]), and soy.ParseGlobals,
-   which calls parse.Expr once per line.  The models describe /repo after 5b2986c (parseSwitch) and
-   8031664 (parse.Expr drains). *)
+   ([scan_done]; that reading of the record is itself proved from a small-step model of the
+   unbuffered channel, Model/Chan.v: C18_chan_* below).  Entry points: parse.SoyFile ([parse_file] /
+   [soy_file]; its own scanner and the nested scanner of every quoted attribute expression),
+   parse.Expr ([soy_expr]), and soy.ParseGlobals, which calls parse.Expr once per line.  The models
+   describe /repo after 5b2986c (parseSwitch) and 8031664 (parse.Expr drains).
+
+   Headline theorems: C18_scanner_fully_consumed_or_drained_file / _expr, for EVERY byte string --
+   the scanner model of C05 (Model/Lexer.v) produces the items, the nested scanner of quoted attribute
+   expressions IS that scanner model in expression mode ([lexq_model]), strconv.Unquote is universally
+   quantified (any function).  No hypothesis about items is left.  The item-level statements they are
+   composed from (any well-formed item stream, any well-formed nested scanner) follow as
+   C18_..._items. *)
 (* source tie by translation: the lemmas of these files are obligations of this property *)
-From Soy Require Import Proofs.SourceTieParser.
-From Soy Require Import Model.Bytes Model.Ast Model.Token Model.ExprParser Model.Parser.
-From Soy Require Import Generated.Tables Proofs.ParserMeasure Proofs.ParserProofs.
+From Soy Require Import Proofs.SourceTieParser Proofs.SourceTieLexer.
+From Soy Require Import Model.Bytes Model.Outcome Model.Ast Model.Token Model.ExprParser Model.Parser Model.Lexer Model.ParseBytes Model.Chan.
+From Soy Require Import Generated.Tables Proofs.ParserMeasure Proofs.ParserProofs Proofs.LexerProofs Proofs.LexParseBridge Proofs.ChanProofs Proofs.ChanParser.
 Open Scope N_scope.
 
+(* parse.SoyFile(name, s) for EVERY byte string s: the scanner model returns its items; the call
+   returns a tree or an error (no run-time panic, so recover is never skipped); the first record is
+   the entry point's own scanner; and every scanner started -- its own and the expression-mode
+   scanner of every quoted attribute expression -- is drained or fully read, on success and on every
+   error path.  unicode.IsLetter / IsDigit: any predicates false of eof; strconv.Unquote: any function. *)
+Theorem C18_scanner_fully_consumed_or_drained_file :
+  forall (uni_letter uni_digit : Z -> bool), uni_letter (-1)%Z = false -> uni_digit (-1)%Z = false ->
+  forall (unq : bstr -> option bstr) (s : bstr),
+  exists ts, lex_items uni_letter uni_digit (lex_budget s) false s = Ok ts /\
+    let o := soy_file (N.of_nat (length s)) (lexq_model uni_letter uni_digit) unq ts in
+    is_tree_or_error (po_result o)
+    /\ (exists own nested, po_scans o = own :: nested /\ sc_sent own = length ts)
+    /\ Forall (fun r => scan_done r = true) (po_scans o).
+Proof. exact scanner_fully_consumed_or_drained_file_all. Qed.
+Print Assumptions C18_scanner_fully_consumed_or_drained_file.
+
+(* parse.Expr(s), hence every line of soy.ParseGlobals, for EVERY byte string s *)
+Theorem C18_scanner_fully_consumed_or_drained_expr :
+  forall (uni_letter uni_digit : Z -> bool), uni_letter (-1)%Z = false -> uni_digit (-1)%Z = false ->
+  forall (s : bstr),
+  exists ts, lex_items uni_letter uni_digit (lex_budget s) true s = Ok ts /\
+    let o := soy_expr (N.of_nat (length s)) ts in
+    is_tree_or_error (po_result o)
+    /\ (exists own, po_scans o = [own] /\ sc_sent own = length ts)
+    /\ Forall (fun r => scan_done r = true) (po_scans o).
+Proof. exact scanner_fully_consumed_or_drained_expr_all. Qed.
+Print Assumptions C18_scanner_fully_consumed_or_drained_expr.
+
+(* the same, about the composed functions bytes -> parse_out of Model/ParseBytes.v *)
+Theorem C18_no_goroutine_left_file :
+  forall (uni_letter uni_digit : Z -> bool), uni_letter (-1)%Z = false -> uni_digit (-1)%Z = false ->
+  forall (unq : bstr -> option bstr) (s : bstr),
+  exists o, soy_file_bytes uni_letter uni_digit unq s = Ok o /\
+            is_tree_or_error (po_result o) /\ po_scans o <> [] /\ Forall (fun r => scan_done r = true) (po_scans o).
+Proof. exact soy_file_bytes_no_goroutine_left. Qed.
+Print Assumptions C18_no_goroutine_left_file.
+
+Theorem C18_no_goroutine_left_expr :
+  forall (uni_letter uni_digit : Z -> bool), uni_letter (-1)%Z = false -> uni_digit (-1)%Z = false ->
+  forall (s : bstr),
+  exists o, soy_expr_bytes uni_letter uni_digit s = Ok o /\
+            is_tree_or_error (po_result o) /\ po_scans o <> [] /\ Forall (fun r => scan_done r = true) (po_scans o).
+Proof. exact soy_expr_bytes_no_goroutine_left. Qed.
+Print Assumptions C18_no_goroutine_left_expr.
+
+(* the instance the model runner executes: the unicode tables regenerated from the toolchain; nothing
+   is assumed at all *)
+Theorem C18_scanner_fully_consumed_or_drained_file_tbl :
+  forall (unq : bstr -> option bstr) (s : bstr),
+  exists ts, lex_items is_letter_tbl is_digit_tbl (lex_budget s) false s = Ok ts /\
+    let o := soy_file (N.of_nat (length s)) (lexq_model is_letter_tbl is_digit_tbl) unq ts in
+    is_tree_or_error (po_result o) /\ Forall (fun r => scan_done r = true) (po_scans o).
+Proof. exact scanner_fully_consumed_or_drained_file_tbl. Qed.
+Print Assumptions C18_scanner_fully_consumed_or_drained_file_tbl.
+
+(* the nested scanner used above is the scanner model itself: its run never takes the dead branch *)
+Theorem C18_nested_scanner_is_the_scanner_model :
+  forall (uni_letter uni_digit : Z -> bool), uni_letter (-1)%Z = false -> uni_digit (-1)%Z = false ->
+  forall str, exists ts, lex_items uni_letter uni_digit (lex_budget str) true str = Ok ts
+                         /\ lexq_model uni_letter uni_digit str = ts /\ scan_ok (N.of_nat (length str)) ts.
+Proof. exact lexq_model_runs. Qed.
+Print Assumptions C18_nested_scanner_is_the_scanner_model.
+
+(* ... and the items Model/Parser.v hands to the nested parse (those items shifted to the attribute's place
+   in the file) are exactly what the scanner model started at that base -- lexExprAt -- sends *)
+Theorem C18_nested_scanner_at_base :
+  forall (uni_letter uni_digit : Z -> bool), uni_letter (-1)%Z = false -> uni_digit (-1)%Z = false ->
+  forall (base : N) str,
+  lex_items_at uni_letter uni_digit (Z.of_N base) (lex_budget str) str
+  = Ok (map (shift_tok base) (lexq_model uni_letter uni_digit str)).
+Proof. exact nested_scanner_at_base. Qed.
+Print Assumptions C18_nested_scanner_at_base.
+
+(* ---------- the item-level statements (any item stream, any nested scanner) ---------- *)
 (* parse.SoyFile: for every stream of well-formed items in which an EOF item is the last item the
    scanner sends, and every well-formed nested scanner: the call returns a tree or an error (no
    run-time panic, so recover is never skipped), the first record is the entry point's own scanner,
    and every scanner started is drained or fully read -- on success and on every error path. *)
-Theorem C18_scanner_fully_consumed_or_drained_file :
+Theorem C18_scanner_fully_consumed_or_drained_file_items :
   forall inlen lexq unq, lexq_wf lexq ->
   forall ts fuel, items_wf inlen ts -> eof_last ts -> (length ts + 2 <= fuel)%nat ->
   let o := parse_file inlen lexq unq parse_expr expr_fuel fuel ts in
@@ -24,17 +106,17 @@ Theorem C18_scanner_fully_consumed_or_drained_file :
   /\ (exists own nested, po_scans o = own :: nested /\ sc_sent own = length ts)
   /\ Forall (fun r => scan_done r = true) (po_scans o).
 Proof. exact scanner_fully_consumed_or_drained_file. Qed.
-Print Assumptions C18_scanner_fully_consumed_or_drained_file.
+Print Assumptions C18_scanner_fully_consumed_or_drained_file_items.
 
 (* parse.Expr, hence every line of soy.ParseGlobals: whatever follows the expression, the scanner
    is drained when the call returns *)
-Theorem C18_scanner_fully_consumed_or_drained_expr :
+Theorem C18_scanner_fully_consumed_or_drained_expr_items :
   forall inlen ts, items_wf inlen ts ->
   is_tree_or_error (po_result (soy_expr inlen ts))
   /\ (exists own, po_scans (soy_expr inlen ts) = [own] /\ sc_sent own = length ts)
   /\ Forall (fun r => scan_done r = true) (po_scans (soy_expr inlen ts)).
 Proof. exact scanner_fully_consumed_or_drained_expr. Qed.
-Print Assumptions C18_scanner_fully_consumed_or_drained_expr.
+Print Assumptions C18_scanner_fully_consumed_or_drained_expr_items.
 
 (* the dependency named in the design: no parse ends in a run-time panic (which would skip the drain
    in recover) or exhausts the model's budget; and the receives are linear in the items *)
@@ -65,6 +147,68 @@ Print Assumptions C18_expr_pinned_refuted.
 Theorem C18_ill_formed_item_crashes :
   exists m, po_result (soy_file 9 (fun _ => []) (fun _ => None) toks_bad_let) = PCrash m.
 Proof. exact ill_formed_item_crashes. Qed.
+
+(* ---------- the channel protocol behind the (sent, received, drained) record (Model/Chan.v) ---------- *)
+(* Single producer, single consumer over an unbuffered channel, EVERY schedule: a parse that returns
+   returns what the functional reading gives (the consumer fed with the list of items, then zero
+   items), so two interleavings cannot make one parse return two results: the parse result is a
+   function of the bytes (used by C13). *)
+Theorem C18_chan_result_of_items :
+  forall (A R : Type) (zero : A) (p : prod A) (c : cons A R) sched r,
+  g_cons (run zero sched (cfg_init p c)) = CRet r -> feeds zero c (items p) r.
+Proof. exact chan_result_of_items. Qed.
+Print Assumptions C18_chan_result_of_items.
+
+Theorem C18_chan_result_deterministic :
+  forall (A R : Type) (zero : A) (p : prod A) (c : cons A R) sched1 sched2 r1 r2,
+  g_cons (run zero sched1 (cfg_init p c)) = CRet r1 -> g_cons (run zero sched2 (cfg_init p c)) = CRet r2 -> r1 = r2.
+Proof. exact chan_result_deterministic. Qed.
+Print Assumptions C18_chan_result_deterministic.
+
+(* scan_done is the right reading: when it holds (at any point of any execution) the scanner
+   goroutine returns after finitely many steps of its own; when the parse has returned and it does
+   not hold, the goroutine never exits under any continuation *)
+Theorem C18_chan_scan_done_exits :
+  forall (A R : Type) (zero : A) (p : prod A) (c : cons A R) sched,
+  let g := run zero sched (cfg_init p c) in
+  chan_scan_done (length (items p)) g = true -> exists k, exited (run zero (repeat MP k) g).
+Proof. exact chan_scan_done_exits. Qed.
+Print Assumptions C18_chan_scan_done_exits.
+
+Theorem C18_chan_not_done_leaks :
+  forall (A R : Type) (zero : A) (p : prod A) (c : cons A R) sched r,
+  let g := run zero sched (cfg_init p c) in
+  g_cons g = CRet r -> chan_scan_done (length (items p)) g = false -> forall more, ~ exited (run zero more g).
+Proof. exact chan_not_done_leaks. Qed.
+Print Assumptions C18_chan_not_done_leaks.
+
+(* the record of Model/Parser.v in the channel model: a parse that makes n receives on the channel of the
+   scanner of the items ts, then drains iff d, then returns -- under every schedule, once it has returned,
+   Parser.scan_done of (|ts|, n, d) says exactly whether the scanner goroutine exits *)
+Theorem C18_scan_done_reading :
+  forall (A : Type) (zero : A) (n : nat) (d : bool) (ts : list A) sched,
+  let g := run zero sched (cfg_init (prod_of A ts) (cons_of_record A n d)) in
+  g_cons g = CRet tt ->
+  (scan_done {| sc_sent := length ts; sc_recv := n; sc_drained := d |} = true -> exists k, exited (run zero (repeat MP k) g))
+  /\ (scan_done {| sc_sent := length ts; sc_recv := n; sc_drained := d |} = false -> forall more, ~ exited (run zero more g)).
+Proof. exact scan_done_reading. Qed.
+Print Assumptions C18_scan_done_reading.
+
+(* Non-vacuity of the channel model: the scanner of "1 2 3" (four items) against a consumer that
+   receives two items and returns (the pinned parse.Expr) under the schedule sync, sync: not scan_done,
+   the producer is parked on its third send; with the drain (the repaired parse.Expr) and the schedule
+   sync x4, producer closes, consumer sees the close: drained, and the producer has exited. *)
+Definition ex_prod : prod N := PSend 1 (PSend 2 (PSend 3 (PSend 9 PClose))).
+Definition ex_cons_pinned : cons N N := CRecv (fun a => CRecv (fun c => CRet (a + c))).
+Definition ex_cons_drain : cons N N := CRecv (fun a => CRecv (fun c => CDrain (CRet (a + c)))).
+Example C18_chan_example_leak :
+  let g := run 0 [MS; MS] (cfg_init ex_prod ex_cons_pinned) in
+  g_cons g = CRet 3 /\ chan_scan_done 4 g = false /\ parked g.
+Proof. cbn. repeat split. eexists; eexists; reflexivity. Qed.
+Example C18_chan_example_drained :
+  let g := run 0 [MS; MS; MS; MS; MP; MC] (cfg_init ex_prod ex_cons_drain) in
+  g_cons g = CRet 3 /\ chan_scan_done 4 g = true /\ exited g.
+Proof. cbn. repeat split. Qed.
 
 (* Non-vacuity: the items of  {call .u data="$x"/}  (20 bytes), the nested scanner's items for the
    attribute string $x, strconv.Unquote of the string item: the hypotheses hold, two scanners are
@@ -98,4 +242,15 @@ Example C18_example_run :
         {| p_rest := []; p_tok0 := ex_mk pit_EOF 20 []; p_tok1 := zero_tok; p_peek := 0; p_recv := 8 |}
   /\ po_scans (soy_file 20 ex_lexq ex_unq ex_toks)
      = [ {| sc_sent := 8; sc_recv := 8; sc_drained := false |}; {| sc_sent := 2; sc_recv := 2; sc_drained := true |} ].
+Proof. vm_compute. split; reflexivity. Qed.
+
+(* the same file from its BYTES: scanner model, nested scanner model and parser model together *)
+Definition ex_bytes : bstr := Eval vm_compute in b "{call .u data=""$x""/}".
+Example C18_example_from_bytes :
+  match lex_items is_letter_tbl is_digit_tbl (lex_budget ex_bytes) false ex_bytes with
+  | Ok ts => ts = ex_toks /\
+             po_scans (soy_file 20 (lexq_model is_letter_tbl is_digit_tbl) ex_unq ts)
+             = [ {| sc_sent := 8; sc_recv := 8; sc_drained := false |}; {| sc_sent := 2; sc_recv := 2; sc_drained := true |} ]
+  | _ => False
+  end.
 Proof. vm_compute. split; reflexivity. Qed.
